@@ -175,13 +175,20 @@ func SafeMulInt64(x, y int64) (int64, error) {
 	return loSigned, nil
 }
 
-// Returns x / y or an error if that computation would cause a division by zero.
+// Returns x / y or an error if that computation would cause a division by zero or overflow (MinInt / -1).
 func SafeDiv[T Integer](x T, y T) (T, error) {
 	if y == 0 {
 		return 0, ierrors.WithMessagef(ErrIntegerDivisionByZero, "%d / %d", x, y)
 	}
 
-	return x / y, nil
+	result := x / y
+
+	// The quotient of two negative integers is positive, unless MinInt / -1 wrapped around to MinInt.
+	if x < 0 && y < 0 && result < 0 {
+		return 0, ierrors.WithMessagef(ErrIntegerOverflow, "%d / %d", x, y)
+	}
+
+	return result, nil
 }
 
 func SafeLeftShift[T Integer](val T, shift uint8) (T, error) {
